@@ -129,4 +129,41 @@ def run_case(case) -> Result:
         check("dh_dpos=sum", system.dh_dpos, np.asarray(a) + np.asarray(b), 1e-12)
     if c is not None:
         check("dh_dmom=dh2_dmom", system.dh_dmom, np.asarray(c), 1e-12)
+    if res.failures:
+        return res
+    # ---- the same values on a state with a history ("arbitrary states"): everything evaluated, then only the
+    # position re-assigned, then only the momentum; keys carry the suffix :used-state so that a caching defect is
+    # distinguishable from a wrong formula
+    used = _state(q, p)
+    for m in ("h", "dh_dpos", "dh_dmom"):
+        try:
+            getattr(system, m)(used)
+        except Exception:  # noqa: BLE001
+            return res
+    q2 = q + 0.37 * np.roll(p, 1) + 0.11
+    p2 = p - 0.23 * np.roll(q, 1) + 0.07
+    if model.con is not None and np.linalg.cond(model.con.jac(q2) @ model.Minv_const @ model.con.jac(q2).T) > 1e4:
+        return res
+    if cls == "riem_softabs" and np.min(np.abs(np.linalg.eigvalsh(model.dens.hess(q2)))) < 1e-6:
+        return res
+    for (nq, np_, what) in ((q2, p, "pos"), (q2, p2, "mom")):
+        if what == "pos":
+            used.pos = nq.copy()
+        else:
+            used.mom = np_.copy()
+        for name, ref in (("h1", model.h1(nq)), ("h2", model.h2(nq, np_)), ("h", model.h1(nq) + model.h2(nq, np_))):
+            try:
+                got = getattr(system, name)(used)
+            except Exception as e:  # noqa: BLE001
+                from vf.core import through_code_under_test
+
+                if through_code_under_test(e.__traceback__) is None:
+                    raise
+                res.fail(f"C05:{key_tag(name)}:{name}:used-state:raises:{type(e).__name__}", str(e))
+                return res
+            ok, msg = _close(got, ref, 1e-9, abs(model.h1(nq)) + abs(model.h2(nq, np_)))
+            if not ok:
+                res.fail(f"C05:{key_tag(name)}:{name}:used-state", f"{tag}: {name} on a state whose {what} was re-assigned "
+                         f"after evaluation disagrees with the documented formula at its current variables: {msg}")
+                return res
     return res
